@@ -19,6 +19,8 @@ type vPipe struct {
 	inherits int
 	closed   int
 	prev     supervisor.Object
+	// the object's Inherit panics after it has taken over from its predecessor
+	panicInherit bool
 }
 
 var vLogInit, vLogInherit, vLogClose int
@@ -38,6 +40,9 @@ func (p *vPipe) Inherit(s *supervisor.Spec, prev supervisor.Object, m context.Mu
 	p.prev = prev
 	vLogInherit++
 	p.bind(s)
+	if p.panicInherit {
+		panic("inherit failed")
+	}
 }
 
 // vPipeSpec: the typed spec of the object. As the real Pipeline (flow nodes bound to their
